@@ -23,6 +23,15 @@ Theorem diffusion_block_vanishes (m : Mesh) (D : fvar F) (x : cvar F) a c :
   constant_along x a c -> apply_axis F (diffAW F m D) (diffAP F m D) (diffAE F m D) x a c = 0.
 Proof. intros [E1 E2]. unfold apply_axis, diffAP. rewrite E1, E2. ring. Qed.
 
+(* the TVD correction along an axis on which the field does not vary is zero, whatever the limiter and the guard *)
+Theorem tvd_block_vanishes (fsgn FLm : K -> K) (m : Mesh) (u uup : fvar F) (x : cvar F) a c :
+  constant_along x a c -> 1 <= cidx a c -> tvdrow F fsgn FLm m u uup x a c = 0.
+Proof.
+  intros [E1 E2] Hi. unfold tvdrow, divrow, tvdflux, psi_p, psi_m.
+  rewrite (cup_cdn a c Hi), E1, E2.
+  destruct (Nat.eqb (cidx a c) 0), (Nat.eqb (cidx a c) (mN F m a)), (Nat.eqb (cidx a (cdn a c)) 0), (Nat.eqb (cidx a (cdn a c)) (mN F m a)); ring.
+Qed.
+
 Theorem central_block_on_invariant_field (m : Mesh) (u : fvar F) (x : cvar F) a c :
   constant_along x a c -> 1 <= cidx a c ->
   mW F m a (cidx a c) <> 0 -> mDX F m a (cidx a c) <> 0 ->
